@@ -137,8 +137,34 @@ def r3(ctx, F):
                   "profile is built from (and the profile changes when GC runs)" % v, fn=ep)
 
 
+def r4_breakpoint_suppression_balanced(ctx, F):
+    """the debugger suppresses breakpoints while it evaluates an expression on the client's behalf by raising a counter;
+    every path out of that function lowers it again (in the function itself, not in a closure that may not run):
+    otherwise one failed `evaluate` (e.g. an unparsable watch expression) leaves every breakpoint disabled for the rest
+    of the session"""
+    n = 0
+    for f in F.fns.values():
+        if f.crate != "starlark" or "src/debug/" not in f.span or f.kind == "Closure":
+            continue
+        adds = [c for c in f.calls if c.bb not in f.cleanup and re.search(r"atomic::Atomic\w*(::<\w+>)?::fetch_add$", c.name)]
+        if not adds:
+            continue
+        subs = [c.bb for c in f.calls if c.bb not in f.cleanup
+                and re.search(r"atomic::Atomic\w*(::<\w+>)?::fetch_sub$", c.name)]
+        for a in adds:
+            n += 1
+            ctx.check(bool(subs) and f.must_pass(a.bb, subs, f.returns()), "C18.R4",
+                      "suppression-balanced:" + short_fn(f.qpath),
+                      "every path from the counter's increment to a return decrements it",
+                      "`%s` raises the breakpoint-suppression counter and can return without lowering it (the decrement "
+                      "is missing on a path, or lives in a closure that only runs on success): breakpoints stay "
+                      "disabled for the rest of the session" % short_fn(f.qpath), fn=f, line=a.line)
+    ctx.floor("C18.R4", "suppression counter increments in the debugger", n, 1)
+
+
 def run(ctx):
     F = ctx.facts("core")
+    r4_breakpoint_suppression_balanced(ctx, F)
     r1(ctx, F)
     r2(ctx, F)
     r3(ctx, F)
